@@ -11,7 +11,7 @@ import os
 import c12_specs as S
 from common import CORPUS_DIR, call
 
-RULE = ("for every class with a hand-written __eq__/__hash__ (61 constructors in 47 families: shapes, intervals, Time, 14 state "
+RULE = ("for every class with a hand-written __eq__/__hash__ (52 constructors in 38 class families: shapes, intervals, Time, 14 state "
         "classes, SignalState, MetaInformationState, Trajectory, Occupancy, both predictions, 4 obstacle classes, StopLine, "
         "Lanelet, MapInformation, LaneletNetwork, sign element/sign, light cycle element/cycle/light, incoming/intersection, "
         "area border/area, GoalRegion, PlanningProblem(+Set), GeoTransformation, Environment, Location, ScenarioID, Scenario) "
@@ -36,7 +36,7 @@ REQUIRED_BUCKETS = ["cls:" + c for c in S.CLASSES] + ["pair:self", "pair:deepcop
                                                         "probe:reversed-list", "table-row"]
 WORKERS = {"quick": 4, "thorough": 8}
 
-QUICK_PER_CLASS = 5
+QUICK_PER_CLASS = 48
 
 
 # ------------------------------------------------------------------------------------------------ implementation runner
